@@ -69,6 +69,7 @@ _HEX = '0123456789abcdefABCDEF'
 def run(ctx):
     _histories(ctx)
     _cookies(ctx)
+    _cookie_lines(ctx)
     _uris(ctx)
 
 
@@ -756,6 +757,166 @@ def _cookies(ctx):
             ctx.count('cookie_' + stack)
     finally:
         drv.close()
+
+
+# ------------------------------------------------------------------ 2b. the exact text of every cookie line = Cw model (CookieOut.lean)
+
+def cp(s):
+    """code points in hex joined by '.', '-' for the empty string (the cwdriver string format)"""
+    return '-' if s == '' else '.'.join('%x' % ord(c) for c in s)
+
+
+def cp_opt(s):
+    return 'N' if s is None else cp(s)
+
+
+def cookie_err_kind(e):
+    """exception of set_cookie / unset_cookie -> the model's error kind (class + which check raised)"""
+    n = type(e).__name__
+    a = e.args[0] if e.args and isinstance(e.args[0], str) else ''
+    if n in ('KeyError', 'CookieError'):
+        if a == 'name is not ascii encodable': return 'key-ascii'
+        if a == 'name contains a reserved character': return 'key-colon'
+        if a.startswith('Attempt to set a reserved key'): return 'key-reserved'
+        if a.startswith('Illegal key'): return 'key-illegal'
+    elif n == 'ValueError':
+        if a == 'value is not ascii encodable': return 'value-ascii'
+        if a.startswith('same_site must be set'): return 'value-samesite'
+        if a.startswith('invalid literal for int()'): return 'value-maxage'
+    elif n == 'OverflowError' and a == 'date value out of range':
+        return 'overflow'
+    return 'other-' + n
+
+
+def cw_fields(name, value, kw):
+    """the ten fields of the driver's `set` / `setcookie` lines for set_cookie(name, value, **kw)"""
+    e = kw.get('expires')
+    if e is None:
+        es = 'N'
+    else:
+        es = '%d,%d,%d,%d,%d,%d,%s' % (e.year, e.month, e.day, e.hour, e.minute, e.second,
+                                       'n' if e.tzinfo is None else '%d' % round(e.utcoffset().total_seconds()))
+    m = kw.get('max_age')
+    if m is None: ms = 'N'
+    elif isinstance(m, int): ms = 'i%d' % m
+    elif isinstance(m, str): ms = 's' + cp(m)
+    else: ms = 'f%d/%d' % m.as_integer_ratio()
+    sec = kw.get('secure')
+    return ' '.join([cp(name), cp(value), es, ms, cp_opt(kw.get('domain')), cp_opt(kw.get('path')),
+                     'N' if sec is None else '01'[bool(sec)], '01'[bool(kw.get('http_only', True))], cp_opt(kw.get('same_site')),
+                     '01'[bool(kw.get('partitioned', False))]])
+
+
+_CW_NAMES = ['c1', 'c2', 'sid', 'A!#$%&*+-.^_`|~', "q'r", 'n:m', 'bad name', 'expires', 'Path', 'PARTITIONED', 'Max-Age', '', 'né', 'é:x', 'a=b',
+             'x;y', '"q"', 'a,b', 'x\x7f', 'café', '日本', 'KK']
+
+
+def rand_cw_kwargs(rnd):
+    """rand_cookie_kwargs plus the corners the model transcribes: the whole datetime range, second-granular offsets, overflow at
+    both ends, leap days, max_age strings int() rejects or reads with sign / blanks / underscores, negative floats, non-ASCII same_site"""
+    import calendar
+    from datetime import datetime, timezone, timedelta
+    kw = rand_cookie_kwargs(rnd)
+    r = rnd.random()
+    if r < 0.25:
+        y = rnd.choice([1, 1, 2, 4, 99, 100, 400, 999, 1000, 1600, 1900, 1999, 2000, 2024, 2100, 9999, 9999, rnd.randint(1, 9999)])
+        mo = rnd.choice([1, 2, 2, 3, 12, rnd.randint(1, 12)])
+        d = rnd.choice([1, calendar.monthrange(y, mo)[1], rnd.randint(1, calendar.monthrange(y, mo)[1])])
+        base = datetime(y, mo, d, rnd.choice([0, 23, rnd.randint(0, 23)]), rnd.choice([0, 59, rnd.randint(0, 59)]), rnd.choice([0, 59, rnd.randint(0, 59)]),
+                        rnd.choice([0, 999999]))
+        if rnd.random() < 0.6:
+            off = rnd.choice([0, 1, -1, 59, 3600, -3600, 86399, -86399, 12345, -54321, rnd.randint(-86399, 86399)])
+            base = base.replace(tzinfo=timezone.utc if off == 0 and rnd.random() < 0.5 else timezone(timedelta(seconds=off)))
+        kw['expires'] = base
+    if rnd.random() < 0.15:
+        kw['max_age'] = rnd.choice(['abc', '', ' 12 ', '+5', '-3', '1_000', '1__0', '_1', '1.5', '0x10', '\t7\n', '1 2', '-', '\xa05', -1, -300, 10 ** 20, -0.9, -15.7, 1e20,
+                                    2.5, 1e-9, 3.0, '12\xe9'])
+    if rnd.random() < 0.1:
+        kw['same_site'] = rnd.choice(['LaK', 'STRİCT', 'lax ', ' lax', 'n\xf6ne', 'strict\n', 'L', 'laxlax', 'NoNe', 'sTRICT'])
+    if rnd.random() < 0.08:
+        kw['domain'] = rnd.choice(['a;b', 'x; Secure', 'exa mple', '=', 'D=1'])
+    if rnd.random() < 0.08:
+        kw['path'] = rnd.choice(['/a; b', '/;', '/=', '/x; HttpOnly', '/"q"'])
+    return kw
+
+
+def _cookie_lines(ctx):
+    import time
+    import http.cookies
+    import falcon
+    import falcon.asgi
+    from falcon.response import ResponseOptions
+    rnd = ctx.rng
+    sess = ctx.session('exact Set-Cookie lines of set_cookie / unset_cookie = Cw model', 'cwdriver')
+    for ci in range(ctx.n(5000, 80000)):
+        asgi = rnd.random() < 0.5
+        dflt = rnd.random() < 0.5
+        cls = falcon.asgi.Response if asgi else falcon.Response
+
+        def fresh():
+            opts = ResponseOptions()
+            opts.secure_cookies_by_default = dflt
+            return cls(options=opts)
+
+        def lines_of(resp):
+            for _ in range(5):
+                t0 = int(time.time())
+                if asgi:
+                    vals = [v.decode('latin-1') for k, v in resp._asgi_headers() if k == b'set-cookie']
+                else:
+                    vals = [v for k, v in resp._wsgi_headers() if k == 'set-cookie']
+                if int(time.time()) == t0:
+                    break
+            return t0, vals
+
+        resp = fresh()
+        ops = []
+        sess.case({'stack': 'asgi' if asgi else 'wsgi', 'secure_cookies_by_default': dflt, 'ops': ops})
+        sess.op('new ' + '01'[dflt], 'ok')
+        some_line = False
+        for _ in range(rnd.randint(1, 5)):
+            if rnd.random() < 0.72:
+                name = rnd.choice(_CW_NAMES[:5]) if rnd.random() < 0.6 else rnd.choice(_CW_NAMES)
+                val = rand_cookie_value(rnd)
+                if rnd.random() < 0.06:
+                    val += rnd.choice(['\xe9', '日', '\x80', '\xff'])
+                kw = rand_cw_kwargs(rnd)
+                ops.append(['set', name, val, kw])
+                fields = cw_fields(name, val, kw)
+                ctx.count('cw_set')
+                try:
+                    resp.set_cookie(name, val, **kw)
+                    sess.op('set ' + fields, 'ok')
+                except (KeyError, ValueError, OverflowError) as e:
+                    sess.op('set ' + fields, 'err ' + cookie_err_kind(e))
+                    ctx.count('cw_set_' + cookie_err_kind(e))
+                # the same call on a fresh response: the stateless setCookieLine
+                one = fresh()
+                try:
+                    one.set_cookie(name, val, **kw)
+                    _, vals = lines_of(one)
+                    sess.op(f'setcookie {"01"[dflt]} ' + fields, 'line ' + cp(vals[0]) if len(vals) == 1 else f'{len(vals)} lines')
+                except (KeyError, ValueError, OverflowError) as e:
+                    sess.op(f'setcookie {"01"[dflt]} ' + fields, 'err ' + cookie_err_kind(e))
+            else:
+                name = rnd.choice(['c1', 'c2', 'sid', 'gone', 'n:m', 'expires', 'bad name', '', 'Secure'])
+                ss = rnd.choice(['Lax', 'Lax', 'Strict', 'None', '', 'bogus', 'lax'])
+                dom = rnd.choice([None, None, 'example.com', ''])
+                path = rnd.choice([None, None, '/', '/a', ''])
+                ops.append(['unset', name, ss, dom, path])
+                ctx.count('cw_unset')
+                line = f'unset {cp(name)} {cp(ss)} {cp_opt(dom)} {cp_opt(path)}'
+                try:
+                    resp.unset_cookie(name, samesite=ss, domain=dom, path=path)
+                    sess.op(line, 'ok')
+                except http.cookies.CookieError as e:
+                    sess.op(line, 'err ' + cookie_err_kind(e))
+            t0, vals = lines_of(resp)
+            some_line = some_line or bool(vals)
+            sess.op(f'emit {t0}', 'lines ' + (','.join(cp(v) for v in vals) or '-'))
+        ctx.seen(('cw', asgi, dflt, repr(ops)), some_line)
+        ctx.count('cw_asgi' if asgi else 'cw_wsgi')
+    sess.finish()
 
 
 # ------------------------------------------------------------------ 3. URI-bearing helpers: pure ASCII, decodes back
